@@ -16,6 +16,8 @@
   Lemmas: `Lemmas/C06NetZero.lean`, `Lemmas/C06AcordBridge.lean`, `Lemmas/C06GeoExample.lean`.
 -/
 import Gama.Lemmas.C06NetZero
+import Gama.Lemmas.C06NetWitness
+import Gama.Lemmas.C06Pipeline
 import Gama.Lemmas.C06AcordBridge
 import Gama.Lemmas.C06GeoExample
 import Gama.Props.C06Assembled
@@ -56,36 +58,71 @@ theorem C06_exact_network_solution_zero (net : PE.Net ℝ) (np : NetProblem ℝ)
     theorems are stated -/
 theorem C06_facade_carrier_is_linearisation_carrier : PE.trigOfField realTrig = instTrigScalarReal := trig_eq
 
-/-- joint satisfiability of the hypotheses of `C06_exact_network_solution_zero` — DEGENERATE instance (the network
-    without points and observations; both models evaluate by `rfl` over ℝ because no real comparison is reached):
-    `project_equations()` returns the 0×0 problem and all three algorithms answer.  A NON-degenerate joint instance
-    over ℝ needs evaluation lemmas of `PE.projectEquations` / `Net.netSolve` over ℝ that do not exist yet (the evaluated
-    PE ∘ netSolve witness `PE.Ex.netW` is over ℚ, where `ExactObs` is not stated); the geometric content of the
-    hypotheses is witnessed separately below (`geoNet`: exact observations, zero right-hand side, trivial kernel) -/
-example : ∃ (net : PE.Net ℝ) (np : NetProblem ℝ) (u : Unknowns ℝ) (Pc : Matrix (Fin (toProblem np).m) (Fin (toProblem np).m) ℝ),
-    projectEquations net = .ok (np, u) ∧ (∀ ob ∈ revisedObs u.net, ExactObs (sigmaOf u.net) ob) ∧
-    (∀ ob ∈ revisedObs u.net, NoAlias ob) ∧ np.m0 ≠ 0 ∧ Sigma np * Pc = 1 ∧ Env.RegListOK (toProblem np) ∧
-    GapThresholds (1 / 8192 : ℝ) ∧ RankGap (toProblem np).A ((np.m0 * np.m0) • Pc) (toProblem np).S (1 / 8192) ∧
-    ∀ alg : Alg, alg ≠ .svd → ∃ a, netSolve alg np = .ok a := by
-  let net0 : PE.Net ℝ := { points := [], clusters := [], m0 := 1, xNorth := 0, fuel := 0, idx := IdxState.init }
-  let np0 : NetProblem ℝ := { m := 0, n := 0, rows := #[], rhs := #[], clusters := [], m0 := 1, minx := [] }
-  refine ⟨net0, np0, ⟨0, [], net0, []⟩, 0, rfl, fun ob hob => (List.not_mem_nil hob).elim, fun ob hob => (List.not_mem_nil hob).elim, one_ne_zero, ?_, ?_,
-    Props.C01.C01_gap_thresholds_default, ⟨?_, ?_⟩, ?_⟩
-  · ext i j; exact (Nat.not_lt_zero _ i.isLt).elim
-  · intro l hl
-    have : l = [] := by
-      have h : Reg.subset [] = Reg.subset l := hl
-      injection h with h'; exact h'.symm
-    subst this
-    exact ⟨List.nodup_nil, fun i hi => (List.not_mem_nil hi).elim⟩
-  · intro k; exact (Nat.not_lt_zero _ k.isLt).elim
-  · intro g _ hne; exact (hne (funext fun i => (Nat.not_lt_zero _ i.isLt).elim)).elim
-  · intro alg halg
-    cases alg with
-    | svd => exact absurd rfl halg
-    | env => exact ⟨_, rfl⟩
-    | chol => exact ⟨_, rfl⟩
-    | gso => exact ⟨_, rfl⟩
+/-- **joint, NON-degenerate instance over ℝ** (`Lemmas/C06NetWitness.lean`): the levelling network `netWexact` — `A` fixed,
+    `B` constrained, `C` free; a CORRELATED cluster (full 3×3 covariance matrix) with a switched-off, wrong observation in
+    it, an all-passive cluster, an uncorrelated cluster; `m_0_apr_ = 2`.  Over ℝ: `project_equations()` returns `npX` (rows
+    `[(1,1)]`, `[(1,−1),(2,1)]`, `[(2,1)]`, `rhs_ = (0,0,0)`, `min_x_ = [1]`), the kept observations are exact and `NoAlias`,
+    `Σ·Pc = 1`, `RegListOK`, `RankGap` with the default `τ = 2⁻¹³` (every Schur pivot of `AᵀPA = [[1/2,−1/6],[−1/6,13/36]]`
+    is ≥ 1/8; full column rank), and `LocalNetwork` configured with cholesky or gso ANSWERS
+    (`prepareProjectEquations()` evaluated with b-W7b's lemmas; the answer by `C02_net_answered_iff_resolves`) — every
+    hypothesis of `C06_exact_network_solution_zero` on ONE object.  Envelope: `Homogenization::run` + the envelope
+    factorisation are not evaluated over ℝ on this matrix — not witnessed -/
+example : projectEquations Ex.netWexact = .ok (Ex.npX, Ex.uX) ∧
+    (∀ ob ∈ revisedObs Ex.uX.net, ExactObs (sigmaOf Ex.uX.net) ob) ∧ (∀ ob ∈ revisedObs Ex.uX.net, NoAlias ob) ∧
+    (revisedObs Ex.uX.net).length = 3 ∧ Ex.npX.rhs = #[0, 0, 0] ∧ Ex.npX.minx = [1] ∧ Ex.npX.m0 ≠ 0 ∧
+    Sigma Ex.npX * Ex.PcX = 1 ∧ Env.RegListOK (toProblem Ex.npX) ∧ GapThresholds (1 / 8192 : ℝ) ∧
+    RankGap (toProblem Ex.npX).A ((Ex.npX.m0 * Ex.npX.m0) • Ex.PcX) (toProblem Ex.npX).S (1 / 8192) ∧
+    ∀ alg : Alg, alg = .chol ∨ alg = .gso → ∃ a, netSolve alg Ex.npX = .ok a :=
+  ⟨Ex.pe_eq, by rw [Ex.uX_robs, Ex.uX_sigma]; exact Ex.robs_exact, by rw [Ex.uX_robs]; exact Ex.robs_noalias, rfl, rfl, rfl,
+    by show (2 : ℝ) ≠ 0; norm_num, Ex.npX_sigma_inv, Ex.npX_reg, Props.C01.C01_gap_thresholds_default, Ex.npX_rankGap,
+    Ex.npX_answers⟩
+
+/-- … and the theorem APPLIED to it: what cholesky / gso answer on the levelling network is `x = 0`, `r = 0`, `[pvv] = 0` -/
+example (alg : Alg) (halg : alg = .chol ∨ alg = .gso) :
+    ∃ a, netSolve alg Ex.npX = .ok a ∧ toVec (toProblem Ex.npX).n a.x = 0 ∧ toVec (toProblem Ex.npX).m a.r = 0 ∧ a.pvv = 0 := by
+  obtain ⟨a, ha⟩ := Ex.npX_answers alg halg
+  exact ⟨a, ha, C06_exact_network_solution_zero Ex.netWexact Ex.npX Ex.uX Ex.pe_eq
+    (by rw [Ex.uX_robs, Ex.uX_sigma]; exact Ex.robs_exact) (by rw [Ex.uX_robs]; exact Ex.robs_noalias)
+    (by show (2 : ℝ) ≠ 0; norm_num) Ex.PcX Ex.npX_sigma_inv Ex.npX_reg Props.C01.C01_gap_thresholds_default Ex.npX_rankGap alg
+    (by rcases halg with rfl | rfl <;> decide) a ha⟩
+
+/-- **the loop of `refine_adjustment()` at the true coordinates, on the EXECUTED pipeline**: `RA.Env.adjust` is
+    `C06PL2.peAdjust alg mk` = `project_equations()` on the network `mk σ obs` followed by `netSolve alg` (index fields,
+    `solve()`, `residuals()`, `revised_obs_` read off the answer).  Hypotheses: those of `C06_exact_network_solution_zero` for
+    the network of the state with the stored reductions; all `OD` observations `DhExact`; the loop's view is the network's
+    (`hview`: same coordinates on the kept observations; `hsub`: the kept observations are observations of `OD` — both
+    trivial without from_dh/to_dh, `PE.Ob` carries `value()` only).  Then, from some fuel on, for every
+    `refine_approx_coordinates` and bound ≥ 1: left by `break` in the first turn, 0 iterations, nothing changed -/
+theorem C06_refine_adjustment_fixed_point_pipeline (alg : Alg) (halg : alg ≠ .svd)
+    (mk : Lin.Net ℝ → List (RA.DObs ℝ) → PE.Net ℝ) (σ : Lin.Net ℝ) (xyz : Nat → Bool) (obs : List (RA.DObs ℝ))
+    (np : NetProblem ℝ) (u : Unknowns ℝ) (a : NetAnswer ℝ)
+    (hpe : projectEquations (mk σ (obs.map (C06RA.stored σ xyz))) = .ok (np, u))
+    (hs : netSolve alg np = .ok a)
+    (hex : ∀ o ∈ obs, C06RA.DhExact σ xyz o)
+    (hview : ∀ ob ∈ revisedObs u.net, (sigmaOf u.net).view ob = σ.view ob)
+    (hsub : ∀ ob ∈ revisedObs u.net, ∃ o ∈ obs, ob = (C06RA.stored σ xyz o).nobs)
+    (hna : ∀ ob ∈ revisedObs u.net, NoAlias ob) (hm0 : np.m0 ≠ 0)
+    (Pc : Matrix (Fin (toProblem np).m) (Fin (toProblem np).m) ℝ) (hPc : Sigma np * Pc = 1)
+    (hreg : Env.RegListOK (toProblem np)) {τ : ℝ} (hτ : GapThresholds τ)
+    (hgap : RankGap (toProblem np).A ((np.m0 * np.m0) • Pc) (toProblem np).S τ) :
+    ∃ f0 : Nat, ∀ ra fuel, f0 ≤ fuel → ∀ maxIter i0 : Nat,
+      @RA.refineAdjustment ℝ instTrigScalarReal (C06PL2.peEnv alg mk ra fuel) (maxIter + 1)
+          ⟨σ, xyz, obs.map (C06RA.stored σ xyz), i0⟩
+        = some (⟨σ, xyz, obs.map (C06RA.stored σ xyz), 0⟩, true, false) :=
+  C06PL2.refineAdjustment_fixed_point_pipeline alg halg mk σ xyz obs np u a hpe hs hex hview hsub hna hm0 Pc hPc hreg hτ hgap
+
+/-- non-vacuity on the levelling network (no from_dh/to_dh): every hypothesis holds for cholesky and gso, so
+    `refine_adjustment()` over the executed `project_equations()` ∘ `netSolve` returns with 0 iterations -/
+example (alg : Alg) (halg : alg = .chol ∨ alg = .gso) : ∃ f0 : Nat, ∀ fuel, f0 ≤ fuel →
+    @RA.refineAdjustment ℝ instTrigScalarReal (C06PL2.peEnv alg (fun _ _ => Ex.netWexact) (fun n z _ _ => (n, z)) fuel) 5
+        ⟨C06PL2.Ex.σW, C06PL2.Ex.xyzW, C06PL2.Ex.odW.map (C06RA.stored C06PL2.Ex.σW C06PL2.Ex.xyzW), 0⟩
+      = some (⟨C06PL2.Ex.σW, C06PL2.Ex.xyzW, C06PL2.Ex.odW.map (C06RA.stored C06PL2.Ex.σW C06PL2.Ex.xyzW), 0⟩, true, false) := by
+  obtain ⟨a, ha⟩ := Ex.npX_answers alg halg
+  obtain ⟨f0, h⟩ := C06_refine_adjustment_fixed_point_pipeline alg (by rcases halg with rfl | rfl <;> decide)
+    (fun _ _ => Ex.netWexact) C06PL2.Ex.σW C06PL2.Ex.xyzW C06PL2.Ex.odW Ex.npX Ex.uX a Ex.pe_eq ha C06PL2.Ex.odW_exact
+    (fun _ _ => rfl) C06PL2.Ex.odW_sub (by rw [Ex.uX_robs]; exact Ex.robs_noalias) (by show (2 : ℝ) ≠ 0; norm_num) Ex.PcX
+    Ex.npX_sigma_inv Ex.npX_reg Props.C01.C01_gap_thresholds_default Ex.npX_rankGap
+  exact ⟨f0, fun fuel hf => h _ fuel hf 4 0⟩
 
 end facade
 
